@@ -1577,12 +1577,12 @@ func (req *Request) ContinueReadBodyStream(r *bufio.Reader, maxBodySize int, pre
 		if err == ErrBodyTooLarge {
 			req.Header.SetContentLength(contentLength)
 			req.body = bodyBuf
-			req.bodyStream = acquireRequestStream(bodyBuf, r, &req.Header)
+			req.setWireBodyStream(bodyBuf, r)
 			return nil
 		}
 		if err == errChunkedStream {
 			req.body = bodyBuf
-			req.bodyStream = acquireRequestStream(bodyBuf, r, &req.Header)
+			req.setWireBodyStream(bodyBuf, r)
 			return nil
 		}
 		req.Reset()
@@ -1590,9 +1590,17 @@ func (req *Request) ContinueReadBodyStream(r *bufio.Reader, maxBodySize int, pre
 	}
 
 	req.body = bodyBuf
-	req.bodyStream = acquireRequestStream(bodyBuf, r, &req.Header)
+	req.setWireBodyStream(bodyBuf, r)
 	req.Header.SetContentLength(contentLength)
 	return nil
+}
+
+// setWireBodyStream makes the rest of the body, which is still on the
+// connection behind r, the request's body stream.
+func (req *Request) setWireBodyStream(bodyBuf *bytebufferpool.ByteBuffer, r *bufio.Reader) {
+	rs := acquireRequestStream(bodyBuf, r, &req.Header)
+	rs.requestOwned = true
+	req.bodyStream = rs
 }
 
 // Read reads response (including body) from the given r.
@@ -2145,7 +2153,7 @@ func (s *compressedBodyStream) closeOriginal(wErr error) error {
 			err = errc
 		}
 	}
-	if bsr, ok := s.bodyStream.(*requestStream); ok {
+	if bsr, ok := s.bodyStream.(*requestStream); ok && !bsr.requestOwned {
 		releaseRequestStream(bsr)
 	}
 	return err
@@ -2233,7 +2241,7 @@ func closeBodyStreamReader(bodyStream io.Reader, wErr error) error {
 			err = errc
 		}
 	}
-	if bsr, ok := bodyStream.(*requestStream); ok {
+	if bsr, ok := bodyStream.(*requestStream); ok && !bsr.requestOwned {
 		releaseRequestStream(bsr)
 	}
 	return err
